@@ -59,6 +59,7 @@ def verify_function(qual, timeout_ms=60000, canary=True, shard=None):
     """returns dict: status in proved|failed|undecided, obligations list, meta"""
     ct = C.get(qual)
     modname, fname = qual.split(":")
+    fname = fname.split("#")[0]  # "Cls.method#impl": a second (implementation-level) contract of the same function
     t0 = time.time()
     res = {"function": qual, "obligations": [], "status": None, "properties": ct.properties}
     try:
